@@ -471,6 +471,25 @@ def h_fix_stereo_keeps(V, smi):
     V.observe('text', text)
 
 
+def h_canonical_stereo(V, smi):
+    """canonical string of a larger multi-closure stereo system re-reads to the same configuration everywhere"""
+    import chython
+    src = mol_of(smi)
+    text = str(src)
+    back = chython.smiles(text)
+    V.prove(str(back) == text, 'canonical string re-reads to itself', {'text': text, 'got': str(back)})
+    order = list(src.smiles_atoms_order)
+    corr = {n: i + 1 for i, n in enumerate(order)}
+    for c, a in src.atoms():
+        if a.stereo is not None and c in src.stereogenic_tetrahedrons:
+            env = tuple(src._bonds[c])
+            V.prove(back._atoms[corr[c]].stereo is not None and
+                    src._translate_tetrahedron_sign(c, env) ==
+                    back._translate_tetrahedron_sign(corr[c], tuple(corr[x] for x in env)),
+                    'configuration of every centre preserved by the canonical string', {'text': text, 'atom': c})
+    V.observe('text', text)
+
+
 def h_nonstereogenic_dropped(V, smi):
     """a mark on a centre with two identical substituents is not kept"""
     import chython
@@ -488,7 +507,7 @@ HARNESSES = {
     'wedge_smiles': with_random(h_wedge_smiles), 'cis_trans_2d_smiles': with_random(h_cis_trans_2d_smiles),
     'wedge_roundtrip': h_wedge_roundtrip,
     'mirror_never_equal': with_random(h_mirror_never_equal), 'fix_stereo_keeps': with_random(h_fix_stereo_keeps),
-    'nonstereogenic_dropped': h_nonstereogenic_dropped,
+    'nonstereogenic_dropped': h_nonstereogenic_dropped, 'canonical_stereo': h_canonical_stereo,
 }
 
 TETRA = ['F[C@](Cl)(Br)I', 'C[C@H](N)O', '[H][C@](C)(N)O', 'C[C@H]1CCCO1', '[C@H](C)(N)O']
@@ -501,7 +520,8 @@ GEO_T = ['F[C@](Cl)(Br)I', 'C[C@H](N)O', '[H][C@](C)(N)O', '[C@H](C)(N)O']
 GEO_RT = [s for s in GEO_T if '[H]' not in s]
 GEO_T_T = GEO_T + ['C[C@H]1CCO1', 'N[C@](C)(O)F']
 GEO_CT = ['F/C=C/Cl', 'F/C(Cl)=C/Br', 'F/C(Cl)=C(/Br)I']
-MIRROR = ['C[C@H](N)O', 'F/C=C/Cl', 'C[C@H](O)/C=C/F', 'FC=[C@]=CCl', 'C[C@H]1CC[C@@H](O)O1']
+MIRROR = ['C[C@H](N)O', 'F/C=C/Cl', 'C[C@H](O)/C=C/F', 'FC=[C@]=CCl', 'C[C@H]1CC[C@@H](O)O1', 'C[C@]12CCC[C@H]1C2']
+KEEPS = MIRROR + ['C[C@H](O)[C@H](F)[C@@H](C)O', 'C/C=C/[C@H](O)/C=C\\C']
 MIRROR_T = MIRROR + ['C[C@H](N)[C@@H](O)F', 'C/C=C/C=C\\F', 'N[C@@]1(C)CCCO1']
 NONSTEREO = ['C[C@H](C)O', 'F/C=C(/C)C', 'C[C@](C)(N)O', 'FC=[C@]=C(C)C']
 
@@ -544,7 +564,11 @@ def jobs(tier):
               'budget_s': 300})
     for s in (MIRROR_T if T else MIRROR):
         J.append({'harness': 'mirror_never_equal', 'params': {'smi': s}, 'budget_s': 600, 'validate_every': 10})
+    for s in KEEPS + (MIRROR_T[len(MIRROR):] if T else []):
         J.append({'harness': 'fix_stereo_keeps', 'params': {'smi': s}, 'budget_s': 600, 'validate_every': 10})
+    from vlib import seeds as _seeds
+    for s in _seeds.BIG_STEREO:
+        J.append({'harness': 'canonical_stereo', 'params': {'smi': s}, 'budget_s': 120})
     for s in NONSTEREO:
         J.append({'harness': 'nonstereogenic_dropped', 'params': {'smi': s}, 'budget_s': 60})
     return J
